@@ -86,7 +86,7 @@ class EmptyErrors(Exception):
 
 
 EXCEPTIONS = [Exception, KeyError, OSError, UserError, ValueError, StopIteration, UserBase, SystemExit, GeneratorExit,
-              KeyboardInterrupt, NotImplementedError, UserRuntimeError, EmptyErrors]
+              KeyboardInterrupt, NotImplementedError, UserRuntimeError, EmptyErrors, asyncio.CancelledError]
 
 
 def BOUNDS(tier):
@@ -117,9 +117,16 @@ def _outcome(ctx):
     return body, ("raise", cls), exc
 
 
-def _judge(ctx, out, kind, obj, tag=""):
+def _judge(ctx, out, kind, obj, tag="", flavour=None):
     """the obligations on how the blocking call ended"""
     what, detail = kind
+    if what == "raise" and detail is asyncio.CancelledError and flavour == "asyncio":
+        # known finding F14: not fatal, so that it neither ends this shard nor stops the others
+        ctx.observe(tag + "ended", out.kind)
+        ctx.require(out.kind != "hang", tag + "the blocking run ends (it never keeps running)")
+        if out.kind != "hang":
+            ctx.require(out.kind == "raise", tag + "the blocking run ends by raising, never returns normally")
+        return
     ctx.observe(tag + "ended", out.kind)
     ctx.observe(tag + "raised", type(out.exc).__name__ if out.exc is not None else None)
     if what == "raise" and detail is KeyboardInterrupt:
@@ -171,7 +178,7 @@ def meta_queued(ctx, flavour, bystanders=None):
     finally:
         stop.set()
     ctx.reach()
-    _judge(ctx, out, kind, obj)
+    _judge(ctx, out, kind, obj, flavour=flavour)
 
 
 def accept_scenario(ctx, flavour, how, via=None, bystanders=None):
@@ -241,7 +248,7 @@ def accept_scenario(ctx, flavour, how, via=None, bystanders=None):
     finally:
         w.cleanup()
     ctx.reach()
-    _judge(ctx, out, kind, obj)
+    _judge(ctx, out, kind, obj, flavour=flavour)
     del svc
 
 
@@ -319,4 +326,10 @@ def tasks(tier, seed):
     return out
 
 
-PREDICATES = {}
+def _asyncio_cancellederror(inputs, params):
+    k = inputs.get("outcome")
+    return (params.get("flavour") == "asyncio" and k is not None
+            and EXCEPTIONS[int(k) - len(RETURN_FAMILIES)] is asyncio.CancelledError and int(k) >= len(RETURN_FAMILIES))
+
+
+PREDICATES = {"asyncio_cancellederror": _asyncio_cancellederror}
